@@ -158,12 +158,15 @@ def shard_include(shard):
     def flush():
         cases = []
         for main, files, path in buf:
-            pre = ['mkdir ' + enc(b'sp')] + ['mkfile %s %s' % (enc(n), enc(c)) for n, c in files.items()]
+            pre = ['wipe', 'mkdir ' + enc(b'sp'), 'mkdir ' + enc(b'sp2')] + ['mkfile %s %s' % (enc(n), enc(c)) for n, c in files.items()]
+            if path in ('decoy', 'decoy-only'):
+                pre.append('mkdir ' + enc(b'sp/a.conf'))          # a directory of the wanted name in the directory searched first
             lines = pre + ['init A %s %d' % (sid, flags), 'cb_quiet 1']
             if path == 'file-first':
                 lines.append('parse A ' + enc(b'one.conf'))       # the same context is parsed from a named file first
             elif path:
                 lines.append('addpath A ' + enc(root.encode() + b'/sp'))
+                lines.append('addpath A ' + enc(root.encode() + b'/sp2'))
             lines += ['parse_buf A ' + enc(main), 'print A', 'free A']
             cases.append(Case(lines))
         for (main, files, path), c, r in zip(buf, cases, drv.run(cases)):
@@ -181,6 +184,8 @@ def shard_include(shard):
             buf.append((b'i = 7 include("a.conf") i = 8', {b'a.conf': b'include("b.conf")\n', b'b.conf': T}, False))
             buf.append((b'sec { include("a.conf") }', {b'a.conf': T}, False))
             buf.append((b'include("a.conf")', {b'sp/a.conf': T}, True))
+            buf.append((b'include("a.conf")', {b'sp2/a.conf': T}, 'decoy'))
+            buf.append((T + b' include("a.conf")', {}, 'decoy-only'))
             buf.append((b'include("a.conf") ' + T, {b'a.conf': b'm { include("b.conf") }', b'b.conf': b'x = 2'}, False))
             # sections entered from one source and re-entered from another (their file name string changes hands)
             buf.append((b'sec { x = 2 } include("a.conf") sec { x = 3 }', {b'a.conf': T}, False))
